@@ -92,6 +92,10 @@ func (s EntrySummary) Append(appendableText string) EntrySummary {
 	if len(s) == 0 {
 		return []string{appendableText}
 	}
+	if len(appendableText) == 0 {
+		// Nothing to append, so there must not be a (dangling) delimiter either.
+		return s
+	}
 	delimiter := ""
 	lastLine := s[len(s)-1]
 	if len(lastLine) > 0 {
